@@ -22,8 +22,8 @@ func init() {
 		Technique: "table agreement (HopHeaders literal vs RFC 7540 8.1.2.2), value-flow of the response header map and status, guard analysis on go/ssa of writeChunk / encodeHeaders / responseWriter.write, feasible-path enumeration of writeResHeaders.writeFrame",
 		Meta: core.Meta{
 			Level:       "other",
-			Explanation: "Decides structural clauses of the HTTP/2 response writer (bfe_http2): (1) the HopHeaders table contains, in canonical spelling and with value true, every connection-specific field of RFC 7540 8.1.2.2 and is never mutated after package initialisation; (2) cloneHeader copies a key only when HopHeaders[key] is false; (3) responseWriterState.snapHeader is assigned only cloneHeader(rws.handlerHeader) and status only the WriteHeader argument under !wroteHeader; (4) in writeChunk the response HEADERS request carries h = rws.snapHeader, httpResCode = rws.status, the stream's id, is sent only under !sentHeader after sentHeader was set, ends the stream whenever the request method is HEAD and otherwise only under handlerDone && !hasTrailers && len(p)==0; (5) every DATA write (writeDataFromHandler, called only from writeChunk) is excluded for HEAD, carries exactly the chunk p, is preceded by the response HEADERS, and may carry END_STREAM only under handlerDone && !hasTrailers; responseWriter.write hands bytes to the buffer only when bodyAllowedForStatus(status), which is false for 1xx, 204 and 304; (6) the trailers HEADERS request is the only one with trailers set, has no status, always has endStream true, is issued only under handlerDone && hasTrailers and no DATA can follow it; (7) encodeHeaders emits a field only with the name returned by lowerHeader (a table hit or strings.ToLower), after validHeaderFieldName(name) and validHeaderFieldValue(value), and transfer-encoding only with value trailers; writeResHeaders.writeFrame emits :status (from httpResCode) before any regular field and its fixed names are lower-case; (8) on every feasible successful path writeResHeaders.writeFrame either emits a HEADERS frame or was not asked to end the stream (a request that silently produces no frame loses END_STREAM); (9) inside writeChunk no call that may add to rws.trailers (the Trailer declarations of the header snapshot via declareTrailer, promoteUndeclaredTrailers; found through static callees and function-value arguments) is reachable from an evaluation of rws.hasTrailers(): the trailer set is complete before END_STREAM is first decided (known finding: promoteUndeclaredTrailers runs after the response HEADERS decision, so \"Trailer:\"-prefixed trailers of a handler that writes no body and never flushes are dropped); (10) pooled objects of bfe_http2 (sorterPool, writeDataPool, responseWriterStatePool, bufWriterPool, fhBytes): after a plain sync.Pool.Put neither the object nor a value sharing its storage (results of calls that received it, e.g. the key slice of sorter.Keys; addresses and loads inside it) is used again, and with a deferred Put no such value is returned, stored into outliving memory or sent, so the key order of a header block cannot be rewritten by another goroutine while it is encoded. Not covered: byte equality of body and trailers with what the handler wrote; END_STREAM exactly once over a whole response (a history of writeChunk calls); header keys the handler stored in non-canonical spelling; HPACK encoding itself (C30/C31); trailer declarations that are skipped on some path without any hasTrailers() evaluation preceding them; pooled objects that escape before the Put through struct fields of other objects or channels (writeDataFromHandler hands its writeData to the serve loop and relies on the done channel).",
-			RuleText:    "obligations = required keys of HopHeaders, mutators of HopHeaders, each map store of cloneHeader, each writer of snapHeader/status, the fields and guards of each writeHeaders request in writeChunk, each writeDataFromHandler call, each buffered write of responseWriter.write, the false-returns of bodyAllowedForStatus, each encKV call of encodeHeaders and writeResHeaders.writeFrame, each return of lowerHeader, each frame-less successful path of writeResHeaders.writeFrame, each call of writeChunk that may write rws.trailers, each sync.Pool.Put of the package",
+			Explanation: "Decides structural clauses of the HTTP/2 response writer (bfe_http2): (1) the HopHeaders table contains, in canonical spelling and with value true, every connection-specific field of RFC 7540 8.1.2.2 and is never mutated after package initialisation; (2) cloneHeader copies a key only when HopHeaders[key] is false; (3) responseWriterState.snapHeader is assigned only cloneHeader(rws.handlerHeader) and status only the WriteHeader argument under !wroteHeader; (4) in writeChunk the response HEADERS request carries h = rws.snapHeader, httpResCode = rws.status, the stream's id, is sent only under !sentHeader after sentHeader was set, ends the stream whenever the request method is HEAD and otherwise only under handlerDone && !hasTrailers && len(p)==0; (5) every DATA write (writeDataFromHandler, called only from writeChunk) is excluded for HEAD, carries exactly the chunk p, is preceded by the response HEADERS, and may carry END_STREAM only under handlerDone && !hasTrailers; responseWriter.write hands bytes to the buffer only when bodyAllowedForStatus(status), which is false for 1xx, 204 and 304; (6) the trailers HEADERS request is the only one with trailers set, has no status, always has endStream true, is issued only under handlerDone && hasTrailers and no DATA can follow it; (7) encodeHeaders emits a field only with the name returned by lowerHeader (a table hit or strings.ToLower), after validHeaderFieldName(name) and validHeaderFieldValue(value), and transfer-encoding only with value trailers; writeResHeaders.writeFrame emits :status (from httpResCode) before any regular field and its fixed names are lower-case; (8) on every feasible successful path writeResHeaders.writeFrame either emits a HEADERS frame or was not asked to end the stream (a request that silently produces no frame loses END_STREAM); (9) inside writeChunk no call that may add to rws.trailers (the Trailer declarations of the header snapshot via declareTrailer, promoteUndeclaredTrailers; found through static callees and function-value arguments) is reachable from an evaluation of rws.hasTrailers(): the trailer set is complete before END_STREAM is first decided (known finding: promoteUndeclaredTrailers runs after the response HEADERS decision, so \"Trailer:\"-prefixed trailers of a handler that writes no body and never flushes are dropped); (10) pooled objects of bfe_http2 (sorterPool, writeDataPool, responseWriterStatePool, bufWriterPool, fhBytes): after a plain sync.Pool.Put neither the object nor a value sharing its storage (results of calls that received it, e.g. the key slice of sorter.Keys; addresses and loads inside it) is used again, and with a deferred Put no such value is returned, stored into outliving memory or sent, so the key order of a header block cannot be rewritten by another goroutine while it is encoded; (11) the declared-trailer set: every insertion into rws.trailers appends the result of CanonicalHeaderKey and is controlled by a negative strSliceContains test of that very value on rws.trailers of the same response (a test on another spelling of the name does not count), strSliceContains reports membership by element equality: a trailer announced twice, in any spelling, is stored and sent once; (12) write order: every call of writeChunk other than the buffer's sink (chunkWriter.Write, which must forward exactly its argument to its own responseWriterState) is made only where rws.bw is known empty (controlled by Buffered() == 0 of the same rws, or dominated by rws.bw.Flush() with no buffered write in between), so nothing overtakes bytes still held in the response buffer. Not covered: byte equality of body and trailers with what the handler wrote; END_STREAM exactly once over a whole response (a history of writeChunk calls); header keys the handler stored in non-canonical spelling; HPACK encoding itself (C30/C31); trailer declarations that are skipped on some path without any hasTrailers() evaluation preceding them; pooled objects that escape before the Put through struct fields of other objects or channels (writeDataFromHandler hands its writeData to the serve loop and relies on the done channel).",
+			RuleText:    "obligations = required keys of HopHeaders, mutators of HopHeaders, each map store of cloneHeader, each writer of snapHeader/status, the fields and guards of each writeHeaders request in writeChunk, each writeDataFromHandler call, each buffered write of responseWriter.write, the false-returns of bodyAllowedForStatus, each encKV call of encodeHeaders and writeResHeaders.writeFrame, each return of lowerHeader, each frame-less successful path of writeResHeaders.writeFrame, each call of writeChunk that may write rws.trailers, each sync.Pool.Put of the package, each insertion into rws.trailers, each call of writeChunk",
 			Assumptions: []string{"handlers fill the header map through bfe_http.Header.Set/Add (canonical keys)"},
 		},
 		Run: runC38,
@@ -47,6 +47,12 @@ func init() {
 			{Name: "sorter-returned-before-sorting", File: "bfe_http2/server.go", Old: "		sorter.SortStrings(rws.trailers)\n		sorterPool.Put(sorter)\n", New: "		sorterPool.Put(sorter)\n		sorter.SortStrings(rws.trailers)\n", Expect: "pool-lifetime|responseWriterState.promoteUndeclaredTrailers"},
 			{Name: "sorter-returned-before-keys-are-encoded", File: "bfe_http2/write.go", Old: "		defer sorterPool.Put(sorter)\n		keys = sorter.Keys(h)\n", New: "		keys = sorter.Keys(h)\n		sorterPool.Put(sorter)\n", Expect: "pool-lifetime|encodeHeaders"},
 			{Name: "frame-header-buffer-escapes", File: "bfe_http2/frame.go", Old: "	defer fhBytes.Put(bufp)\n	return readFrameHeader(*bufp, r)\n", New: "	defer fhBytes.Put(bufp)\n	lastFrameHeaderBytes = *bufp\n	return readFrameHeader(*bufp, r)\n}\n\nvar lastFrameHeaderBytes []byte\n\nfunc init() {\n	_ = lastFrameHeaderBytes\n", Expect: "pool-lifetime|ReadFrameHeader"},
+			{Name: "trailer-dedup-on-raw-key", File: "bfe_http2/server.go", Old: "	k = http.CanonicalHeaderKey(k)\n	switch k {\n	case \"Transfer-Encoding\", \"Content-Length\", \"Trailer\":\n		// Forbidden by RFC 2616 14.40.\n		return\n	}\n	if !strSliceContains(rws.trailers, k) {\n		rws.trailers = append(rws.trailers, k)\n	}", New: "	ck := http.CanonicalHeaderKey(k)\n	switch ck {\n	case \"Transfer-Encoding\", \"Content-Length\", \"Trailer\":\n		return\n	}\n	if !strSliceContains(rws.trailers, k) {\n		rws.trailers = append(rws.trailers, ck)\n	}", Expect: "trailer-set|responseWriterState.declareTrailer:insert:once"},
+			{Name: "trailer-stored-uncanonical", File: "bfe_http2/server.go", Old: "	k = http.CanonicalHeaderKey(k)\n	switch k {\n	case \"Transfer-Encoding\"", New: "	switch http.CanonicalHeaderKey(k) {\n	case \"Transfer-Encoding\"", Expect: "trailer-set|responseWriterState.declareTrailer:insert:canonical"},
+			{Name: "large-byte-write-bypasses-buffer", File: "bfe_http2/server.go", Old: "	if dataB != nil {\n		return rws.bw.Write(dataB)\n	}", New: "	if dataB != nil {\n		if len(dataB) > rws.bw.Available() {\n			return rws.writeChunk(dataB)\n		}\n		return rws.bw.Write(dataB)\n	}", Expect: "chunk-order|responseWriter.write:writeChunk"},
+			{Name: "flush-sends-headers-past-buffered-bytes", File: "bfe_http2/server.go", Old: "	if rws.bw.Buffered() > 0 {\n		if err := rws.bw.Flush(); err != nil {", New: "	if rws.bw.Buffered() > 0 && rws.sentHeader {\n		if err := rws.bw.Flush(); err != nil {", Expect: "chunk-order|responseWriter.Flush:writeChunk"},
+			{Name: "silent-large-write-bypasses-empty-buffer", File: "bfe_http2/server.go", Old: "	if dataB != nil {\n		return rws.bw.Write(dataB)\n	}", New: "	if dataB != nil {\n		if rws.bw.Buffered() == 0 && len(dataB) > handlerChunkWriteSize {\n			return rws.writeChunk(dataB)\n		}\n		return rws.bw.Write(dataB)\n	}", Silent: true},
+			{Name: "silent-flush-branches-swapped", File: "bfe_http2/server.go", Old: "	if rws.bw.Buffered() > 0 {\n		if err := rws.bw.Flush(); err != nil {\n			// Ignore the error. The frame writer already knows.\n			return nil\n		}\n	} else {\n		// The bufio.Writer won't call chunkWriter.Write\n		// (writeChunk with zero bytes, so we have to do it\n		// ourselves to force the HTTP response header and/or\n		// final DATA frame (with END_STREAM) to be sent.\n		rws.writeChunk(nil)\n	}\n	return nil\n", New: "	if rws.bw.Buffered() == 0 {\n		rws.writeChunk(nil)\n		return nil\n	}\n	if err := rws.bw.Flush(); err != nil {\n		return nil\n	}\n	return nil\n", Silent: true},
 			{Name: "silent-sorted-keys-helper-copies", File: "bfe_http2/write.go", Old: "func encodeHeaders(enc *hpack.Encoder, h http.Header, keys []string) int {\n	headerSize := 0 // orignal header size\n	if keys == nil {\n		sorter := sorterPool.Get().(*sorter)\n		// Using defer here, since the returned keys from the\n		// sorter.Keys method is only valid until the sorter\n		// is returned:\n		defer sorterPool.Put(sorter)\n		keys = sorter.Keys(h)\n	}\n", New: "func sortedHeaderKeys(h http.Header) []string {\n	sorter := sorterPool.Get().(*sorter)\n	defer sorterPool.Put(sorter)\n	return append([]string(nil), sorter.Keys(h)...)\n}\n\nfunc encodeHeaders(enc *hpack.Encoder, h http.Header, keys []string) int {\n	headerSize := 0 // orignal header size\n	if keys == nil {\n		keys = sortedHeaderKeys(h)\n	}\n", Silent: true},
 			{Name: "silent-declare-before-date", File: "bfe_http2/server.go", Old: "		var date string\n		if _, ok := rws.snapHeader[\"Date\"]; !ok {\n			// TODO(bradfitz): be faster here, like net/http? measure.\n			date = time.Now().UTC().Format(http.TimeFormat)\n		}\n\n		for _, v := range rws.snapHeader[\"Trailer\"] {\n			foreachHeaderElement(v, rws.declareTrailer)\n		}\n", New: "		for _, v := range rws.snapHeader[\"Trailer\"] {\n			foreachHeaderElement(v, rws.declareTrailer)\n		}\n		var date string\n		if _, ok := rws.snapHeader[\"Date\"]; !ok {\n			date = time.Now().UTC().Format(http.TimeFormat)\n		}\n", Silent: true},
 			{Name: "silent-rename-chunk", File: "bfe_http2/server.go", Old: "	endStream := rws.handlerDone && !rws.hasTrailers()\n	if len(p) > 0 || endStream {\n		// only send a 0 byte DATA frame if we're ending the stream.\n		if err := rws.conn.writeDataFromHandler(rws.stream, p, endStream); err != nil {", New: "	last := rws.handlerDone && !rws.hasTrailers()\n	if last || len(p) > 0 {\n		if err := rws.conn.writeDataFromHandler(rws.stream, p, last); err != nil {", Silent: true},
@@ -584,6 +590,12 @@ func runC38(c *core.Ctx) {
 	if wc != nil {
 		c38TrailersComplete(c, e, wc, trailersF)
 	}
+
+	// ---- (11) the declared-trailer set holds each canonical name once ---------------
+	c38TrailerSet(c, e, trailersF)
+
+	// ---- (12) nothing overtakes the response buffer ---------------------------------
+	c38ChunkOrder(c, e)
 
 	// ---- (10) pooled objects are not used after they were returned -----------------
 	c38PoolLifetime(c, e)
